@@ -50,6 +50,23 @@ var validatorRoots = []string{
 	"encrypted_leaseset.EncryptedLeaseSet.HasOfflineKeys",
 	"encrypted_leaseset.EncryptedLeaseSet.Validate",
 	"meta_leaseset.validateEntryType",
+	// parser-side guards (pure functions of lengths, counts and type codes)
+	"offline_signature.validateMinimumOfflineSignatureData",
+	"offline_signature.validateTransientKeyType",
+	"offline_signature.validateTransientKeyData",
+	"offline_signature.validateDestinationSignatureType",
+	"offline_signature.validateSignatureData",
+	"meta_leaseset.validateMinSize",
+	"meta_leaseset.validateHeaderDataSize",
+	"meta_leaseset.validateEntryCount",
+	"meta_leaseset.validateEntryMinSize",
+	"encrypted_leaseset.validateEncryptedDataLength",
+	"encrypted_leaseset.validateEncryptedLeaseSetSize",
+	"keys_and_cert.validateKeysAndCertDataSize",
+	"keys_and_cert.validateMinimumDataLength",
+	"keys_and_cert.validatePaddingSize",
+	"certificate.validateCertType",
+	"certificate.validateCertPayload",
 }
 
 type vmode int
